@@ -78,10 +78,9 @@ Section JsonSound.
         split; [split; [exact Hd|exact E]|cbn [adepth]; lia].
   Qed.
 
-  Theorem json_reader_sound s dm l : from_json sortf q w s = JRRes (AOk (dm, l)) ->
+  Lemma json_value_sound v dm l : json_value_1d sortf q w v = AOk (dm, l) ->
     dm <= max_depth q w /\ Forall (elem_wf q dm) l /\ asc 0 (map (erange q w) l).
   Proof.
-    unfold from_json. destruct (jparse s) as [| |v]; try discriminate.
     unfold json_value_1d. destruct v as [n|st|a|m]; try discriminate.
     destruct (jcells q m (anseq 0 (S (N.to_nat (max_depth q w)))) 0 []) as [[dm0 l0]|e] eqn:C; [|discriminate].
     destruct (adj_ok q w (sortf q l0)) eqn:A; [|discriminate].
@@ -98,4 +97,61 @@ Section JsonSound.
       + eapply Forall_impl; [|exact H3]. intros x [Hx _]. exact Hx.
       + destruct (sortf q l0); [exact I|lia].
   Qed.
+
+  Theorem json_reader_sound s dm l : from_json sortf q w s = JRRes (AOk (dm, l)) ->
+    dm <= max_depth q w /\ Forall (elem_wf q dm) l /\ asc 0 (map (erange q w) l).
+  Proof.
+    unfold from_json. destruct (jparse s) as [| |v]; try discriminate.
+    intros H. inversion H as [H']. exact (json_value_sound v dm l H').
+  Qed.
 End JsonSound.
+
+(** the 2-D reader: every element of an accepted document has two valid, non-empty sides of depth <= the
+    returned depths <= MAX_DEPTH *)
+Section JsonSound2.
+  Variable sortf : qty -> list aelem -> list aelem.
+  Hypothesis sortf_perm : forall q l, Permutation (sortf q l) l.
+  Hypothesis sortf_sorted : forall q l, Sorted (fun a b => flat_leb q a b = true) (sortf q l).
+  Variables (q1 : qty) (w1 : N) (q2 : qty) (w2 : N) (p1 p2 : N).
+
+  Definition side_ok (q : qty) (w d : N) (l : list aelem) : Prop :=
+    l <> [] /\ Forall (elem_wf q d) l /\ asc 0 (map (erange q w) l).
+  Definition st_elem_ok (d1 d2 : N) (e : st_elem) : Prop := side_ok q1 w1 d1 (fst e) /\ side_ok q2 w2 d2 (snd e).
+
+  Lemma elem_wf_mono q d d' x : d <= d' -> elem_wf q d x -> elem_wf q d' x.
+  Proof. intros H [A B]. split; [lia|exact B]. Qed.
+
+  Lemma j2loop_sound : forall es d1 d2 l_acc d1' d2' l,
+    j2loop sortf q1 w1 q2 w2 p1 p2 es d1 d2 l_acc = J2Ok d1' d2' l ->
+    d1 <= max_depth q1 w1 -> d2 <= max_depth q2 w2 -> Forall (st_elem_ok d1 d2) l_acc ->
+    d1' <= max_depth q1 w1 /\ d2' <= max_depth q2 w2 /\ Forall (st_elem_ok d1' d2') l.
+  Proof.
+    induction es as [|v es IH]; intros d1 d2 l_acc d1' d2' l H Hd1 Hd2 Hacc.
+    - cbn [j2loop] in H. inversion H; subst. auto.
+    - cbn [j2loop] in H. destruct v as [n|s|a|m]; try discriminate.
+      destruct (jlookup [p1] m) as [a|]; [|discriminate]. destruct (jlookup [p2] m) as [b|]; [|discriminate].
+      destruct (json_value_1d sortf q1 w1 a) as [[dl el]|e1] eqn:E1; [|discriminate].
+      destruct (json_value_1d sortf q2 w2 b) as [[dr er]|e2] eqn:E2; [|discriminate].
+      destruct (json_value_sound sortf sortf_perm sortf_sorted q1 w1 a dl el E1) as [A1 [A2 A3]].
+      destruct (json_value_sound sortf sortf_perm sortf_sorted q2 w2 b dr er E2) as [B1 [B2 B3]].
+      apply (IH _ _ _ _ _ _ H); [lia|lia|].
+      assert (Hmono : Forall (st_elem_ok (N.max d1 dl) (N.max d2 dr)) l_acc).
+      { eapply Forall_impl; [|exact Hacc]. intros e [[X1 [X2 X3]] [Y1 [Y2 Y3]]].
+        split; (split; [assumption|split; [|assumption]]).
+        - eapply Forall_impl; [|exact X2]. intros x. apply elem_wf_mono. lia.
+        - eapply Forall_impl; [|exact Y2]. intros x. apply elem_wf_mono. lia. }
+      destruct el as [|x1 r1]; [exact Hmono|]. destruct er as [|x2 r2]; [exact Hmono|].
+      apply Forall_app. split; [exact Hmono|]. constructor; [|constructor].
+      split; cbn [fst snd]; (split; [discriminate|split; [|assumption]]).
+      + eapply Forall_impl; [|exact A2]. intros x. apply elem_wf_mono. lia.
+      + eapply Forall_impl; [|exact B2]. intros x. apply elem_wf_mono. lia.
+  Qed.
+
+  Theorem st_json_reader_sound s d1 d2 l : st_from_json sortf q1 w1 q2 w2 p1 p2 s = J2Ok d1 d2 l ->
+    d1 <= max_depth q1 w1 /\ d2 <= max_depth q2 w2 /\ Forall (st_elem_ok d1 d2) l.
+  Proof.
+    unfold st_from_json. destruct (jparse s) as [| |v]; try discriminate.
+    destruct v as [n|st|es|m]; try discriminate.
+    intros H. apply (j2loop_sound _ _ _ _ _ _ _ H); [apply N.le_0_l|apply N.le_0_l|constructor].
+  Qed.
+End JsonSound2.
